@@ -35,6 +35,7 @@ def run(prog, rep, tier='quick'):
     rep.rule('marple-normalisation', 'size signature of the returned variances == 1/(N-p)')
     rep.rule('admission', 'no guard on (N, order) raises on the grid N=6..12, order=1..N/2 (arcovar, modcovar and the Marple recursions)')
     rep.rule('final-order-variance', 'a variance returned from inside the order loop depends (def-use within the iteration) on the coefficient stored in that iteration')
+    rep.rule('final-order-unguarded', 'no raise-guard on a returned variance lies between its order update and the exit (return / break) taken at the final order of a Marple recursion')
     rep.rule('guard-consistency', 'all raise-guards of one scalar inside a Marple recursion accept the same interval (open/closed ends included)')
     seen = set()
     cm = prog.func('linalg', 'corrmtx')
@@ -340,6 +341,57 @@ def run(prog, rep, tier='quick'):
             else:
                 rep.proved('guard-consistency', f.qname, 'validity tests of %s' % name, '%d test(s), all accept %s' % (len(lst), show_iv(kinds[0])),
                            loc(f.mod, f.node))
+    # exact fits are inside C14's domain (p noiseless exponentials at order p): there the final-order minimum is 0 up to round-off of
+    # either sign, so no sign test of a returned variance may sit between its order update and the exit of the final order
+    n_fu = 0
+    for mod, fname in (('covar', 'arcovar_marple'), ('modcovar', 'modcovar_marple')):
+        f = prog.func(mod, fname)
+        guards_ = accepted_intervals(f.node)
+        for lp in [n_ for n_ in ast.walk(f.node) if isinstance(n_, (ast.For, ast.While))]:
+            xidx = [i_ for i_, st_ in enumerate(lp.body) if isinstance(st_, ast.If)
+                    and any(isinstance(x_, (ast.Return, ast.Break)) for x_ in ast.walk(st_))
+                    and not any(isinstance(x_, ast.Raise) for x_ in ast.walk(st_))]
+            if not xidx:
+                continue
+            X_ = xidx[0]
+            exits = [x_ for x_ in ast.walk(lp.body[X_]) if isinstance(x_, (ast.Return, ast.Break))]
+            if isinstance(exits[0], ast.Return):
+                rets = [exits[0]]
+            else:
+                rets = [st_ for st_ in f.node.body[f.node.body.index(lp) + 1:] if isinstance(st_, ast.Return)] if lp in f.node.body else []
+            returned = {n_.id for r_ in rets if r_.value is not None for n_ in ast.walk(r_.value) if isinstance(n_, ast.Name)}
+            if not returned:
+                continue
+            n_fu += 1
+
+            def last_store(name):
+                last = -1
+                for i_, st_ in enumerate(lp.body[:X_]):
+                    for x_ in ast.walk(st_):
+                        if isinstance(x_, ast.Name) and x_.id == name and isinstance(x_.ctx, ast.Store):
+                            last = i_
+                return last
+            bad_ = []
+            for g_, iv in guards_:
+                top = [i_ for i_, st_ in enumerate(lp.body[:X_]) if any(x_ is g_ for x_ in ast.walk(st_))]
+                if not top:
+                    continue
+                for name in iv:
+                    ls_ = last_store(name)
+                    if name in returned and 0 <= ls_ <= top[0]:
+                        bad_.append((name, g_))
+            if bad_:
+                for name, g_ in bad_:
+                    rep.violation('final-order-unguarded', f.qname, 'order update of %s -> exit of the final order' % name,
+                                  'a raise-guard on %s (line %d) lies between the order update of %s and the exit taken at the final order: '
+                                  'for an exact fit (p noiseless exponentials at order p, inside the stated domain) the final minimum is 0 up '
+                                  'to round-off of either sign, so the recursion raises instead of returning the coefficients' %
+                                  (name, g_.lineno, name), loc(f.mod, g_))
+            else:
+                rep.proved('final-order-unguarded', f.qname, 'order update -> exit of the final order', 'no raise-guard on a returned scalar '
+                           '(%s) between its last update and the final-order exit (statement %d of the order loop)' %
+                           (', '.join(sorted(returned)), X_), loc(f.mod, lp.body[X_]))
+    rep.floor('final-order exits examined', n_fu, 2)
     # the stated domain (N - p >= p) is admitted by all four estimators
     from ..d1rules import admission_of
     grid = [{'N': n_, 'Pa': p_} for n_ in range(6, 13) for p_ in range(1, n_ // 2 + 1)]
